@@ -1,4 +1,5 @@
 """C02 — expression operators compute the HCL-defined function at every width."""
+from props import C19
 from props.common_prog import judge_prog
 
 THEOREM_MODULES = ["Hcl.Theorems.C02", "Hcl.Tie.Ops"]
@@ -22,4 +23,5 @@ def streams(tier, seed):
     return [
         {"name": "expr", "stream": "expr", "count": 4000 if q else 200000, "judge": judge},
         {"name": "prog-dag", "stream": "prog", "count": 300 if q else 10000, "extra": ("dag",), "judge": judge},
-    ]
+            # what the user sees goes through the command line and the two files: the real binary on accepted, rejected, big, not-UTF-8, bare-CR files, good and malformed images, all options and TIMEOUT forms (as in C19)
+            {"name": "cli", "stream": "cli", "count": 200 if q else 5000, "pygen": C19.pygen, "judge": C19.judge}]
